@@ -82,13 +82,15 @@ Multilinear<T> gen_f(vf::Tape& t, std::size_t dims)
     Multilinear<T> f;
     f.dims = dims;
     std::size_t const terms = 1 + t.pick(3);
-    bool const unit = t.pick(5) == 0; // f == 1: measure preservation alone
+    std::size_t const u10 = t.pick(10);
+    bool const unit = u10 < 2; // f == 1: measure preservation alone
+    bool const subnormal = u10 == 1; // f == min / 16: the same statement for a constant in the subnormal range of T
     for (std::size_t i = 0; i != terms; ++i)
     {
         std::vector<T> a(dims), b(dims);
         for (std::size_t k = 0; k != dims; ++k)
         {
-            if (unit) { a[k] = T(1); b[k] = T(0); continue; }
+            if (unit) { a[k] = (subnormal && k == 0) ? std::numeric_limits<T>::min() / T(16) : T(1); b[k] = T(0); continue; }
             a[k] = static_cast<T>(static_cast<long double>(static_cast<int>(t.range(0, 16)) - 8) / 4);
             b[k] = t.pick(4) == 0 ? T(0) : static_cast<T>(static_cast<long double>(static_cast<int>(t.range(0, 16)) - 8) / 2);
             if (t.pick(6) == 0) { a[k] = static_cast<T>((t.unit() - 0.5) * 6); b[k] = static_cast<T>((t.unit() - 0.5) * 6); }
@@ -180,6 +182,7 @@ template <typename T>
 void judge(vf::Ctx& c, T got, long double expect, long double tol, char const* sig, std::string const& what)
 {
     long double const err = std::fabs(static_cast<long double>(got) - expect);
+    tol += 4 * static_cast<long double>(std::numeric_limits<T>::denorm_min()); // (products in the subnormal range are rounded to its grid)
     c.note_margin(tol, err);
     VF_CHECK(c, err <= tol, sig, what << ": estimate " << vf::show(got) << ", integral " << vf::show<long double>(expect) << ", error " << vf::show<long double>(err)
         << " = " << vf::show<long double>(err / vf::eps<T>()) << " eps, tolerance " << vf::show<long double>(tol));
